@@ -379,23 +379,34 @@ def passthrough_str_ops(prog, chk):
     from props.C19 import TEXT_ALTERING
 
     seen = collections.Counter()
+    sites = {}
     n = 0
     for b in prog.bodies.values():
         if not (b.path.startswith("svgdx::events::") or b.path.startswith("svgdx::element::SvgElement::new") or b.path.startswith("svgdx::types::ClassList") or b.path.startswith("svgdx::types::AttrMap") or b.path.startswith("svgdx::types::<impl")):
             continue
         for (bb, t, c) in b.call_sites(lambda c: c.path.split("::")[-1] in TEXT_ALTERING and ("str" in c.path.lower() or "string" in c.path.lower())):
             k = (strip_closures(b.path), c.path.split("::")[-1])
-            seen[k] += 1
+            seen[k[1]] += 1
+            sites.setdefault(k[1], []).append((b, bb, t))
             n += 1
-            ent = PASSTHROUGH_STR_OK.get(k)
-            ok = ent is not None and seen[k] <= ent[0]
-            from props import strops as _so
+    # judged per operation over the whole scope (a helper spliced into its caller, code moved between two functions of
+    # the scope, or an escaper hoisted to module level keep the totals): one more application of an *altering* operation
+    # than the reviewed total is a violation; slicing / splitting operations that are not in the list are UNDECIDED
+    from props import strops as _so
 
-            if not ok and k[1] not in _so.ALTERING_OPS:
-                # slicing / splitting: a rewrite that keeps every character does this as well - no verdict from the inventory
-                chk.undecided("A14.passthrough-str-ops", f"{k[0].replace('svgdx::', '')}:{k[1]}", b.where(bb, t.get("line")), f"{b.short} applies str::{k[1]}() (a slicing / splitting operation) at a place that is not in the reviewed list; whether characters are lost depends on what is done with the pieces")
-                continue
-            chk.ob(ok, "A14.passthrough-str-ops", f"{k[0].replace('svgdx::', '')}:{k[1]}#{seen[k]}", b.where(bb, t.get("line")), f"reviewed: {ent[1] if ent else ''}", f"{b.short} applies str::{k[1]}() on the reader / element / writer path; not one of the reviewed places: attribute values, class lists or character data of a passed-through document can be altered", by="table")
+    allowed = collections.Counter()
+    for (fn_, op_), (cnt_, _why) in PASSTHROUGH_STR_OK.items():
+        allowed[op_] += cnt_
+    for op_ in sorted(seen):
+        first = sites[op_][0]
+        where_ = first[0].where(first[1], first[2].get("line"))
+        if seen[op_] <= allowed[op_]:
+            chk.ok("A14.passthrough-str-ops", op_, where_, f"str::{op_}() applied {seen[op_]} time(s) (reviewed: {allowed[op_]})", by="table")
+        elif op_ not in _so.ALTERING_OPS:
+            chk.undecided("A14.passthrough-str-ops", op_, where_, f"str::{op_}() (a slicing / splitting operation) is applied {seen[op_]} time(s) on the reader / element / writer path, reviewed {allowed[op_]}; whether characters are lost depends on what is done with the pieces")
+        else:
+            extra = [x[0].where(x[1], x[2].get("line")) for x in sites[op_]]
+            chk.bad("A14.passthrough-str-ops", op_, where_, f"str::{op_}() is applied {seen[op_]} time(s) on the reader / element / writer path (reviewed: {allowed[op_]}; sites {extra}): one more character-altering operation than reviewed - attribute values, class lists or character data can be altered on their way")
     chk.floor("A14.passthrough-str-ops", n, 9, "character-altering string operation on the reader/writer path")
 
 
